@@ -298,7 +298,9 @@ def parseLoop (t : Tbl) : Nat → Nat → Option Nat → Expr → List Tok → O
     | none => some (lhs, tok :: ts)
 end
 
-/-- fuel that is always enough for a token list (see `Proofs/OalExpr.lean`: `fuel_enough`) -/
+/-- fuel that is enough for EVERY token list: `Proofs/OalFuel.lean` proves that a result obtained with any amount of
+    fuel is obtained with every amount ≥ 2·|ts| + 2 (`parseExpr_fuel_indep`), so `parseExprTop` rejects only what
+    every fuel rejects (`parseExprTop_complete`) -/
 def fuelFor (ts : List Tok) : Nat := 8 * ts.length + 8
 
 /-- the expression parser as the driver and the statement parser use it -/
